@@ -98,6 +98,14 @@ fn run(c: &mut Ctx, t: &[&str], precap: Option<usize>) -> Option<Out> {
     }
     _ => None,
   };
+  if op == "deserialize" {
+    let sq = crate::serde_script::Sq::parse(t[2], t[3])?;
+    if sq.items.iter().any(|x| x.is_none()) {
+      return Some(Out::Text("err".to_string())); // Vec reads to the end: any `E` is an error
+    }
+    c.put(r, Sh::Vec(sq.items.iter().flatten().copied().collect()));
+    return Some(Out::Unit);
+  }
   if let Some(v) = made {
     c.put(r, Sh::Vec(v));
     let huge = matches!(op, "with_capacity" | "with_alignment") && n2.map_or(true, |n| n > HUGE);
@@ -200,6 +208,11 @@ fn run(c: &mut Ctx, t: &[&str], precap: Option<usize>) -> Option<Out> {
         return None;
       }
       Out::Unit
+    }
+    "serialize" => Out::List(v.clone()),
+    "deserialize_in_place" => {
+      let mut sq = crate::serde_script::Sq::parse(t[2], t[3])?;
+      if crate::serde_script::shadow_in_place(v, &mut sq) { Out::Unit } else { Out::Text("err".to_string()) }
     }
     "shrink_to_fit" | "raw_part" => Out::Unit,
     "split_spare" | "raw_parts" => Out::Nums(vec![len as u64]),
